@@ -9,11 +9,11 @@ SPEC = {
         "'followed by a full buffer' is checked as >= redownload_buffer_size accepted later headers (the weaker reading of the statement)",
     ],
     "stages": [
-        gen("vh_c33", "c33_headerssync", 15000, 250000, min_cases_quick=3000,
+        gen("vh_c33", "c33_headerssync", 15000, 250000, max_seconds_quick=600, min_cases_quick=1000,
             floors={"reached-redownload": 0.3, "released-some": 0.15, "released-by-buffer": 0.02, "released-after-work-proven": 0.1, "p2:switch-chain": 0.1,
                     "commitment-clause-eligible": 0.04, "low-work-peer": 0.05, "tight-length-bound": 0.1, "outcome:complete": 0.05, "outcome:redownload-failed": 0.05},
             rule="peer behaviours over synthetic header chains vs own release-discipline model; non-trivial = reached REDOWNLOAD and (released >= 1 or adversarial second pass)"),
-        gen("vh_c33", "up_headers_sync_state", 10000, 150000, rule="upstream fuzz target headers_sync_state (asserts + sanitizers), supplementary"),
+        gen("vh_c33", "up_headers_sync_state", 10000, 150000, max_seconds_quick=600, rule="upstream fuzz target headers_sync_state (asserts + sanitizers), supplementary"),
     ],
 }
 
